@@ -213,9 +213,25 @@ def runMStmts (C : Codecs) (isAndX : Bool) (s : MState) : List MStmt → Outcome
   | st :: rest => do let s' ← runMStmt C isAndX s st; runMStmts C isAndX s' rest
 end
 
+/-- the name under which the AndX block of an AndX command (`Command.AndX`, a pointer: absent = nil) is kept among
+    the field values; no declared field can have it (the extractor refuses a structure declaring `AndX`, which would
+    shadow the promoted field) -/
+def andxField : String := "AndX"
+
+/-- `AndXCommand, AndXReserved, AndXOffset` as `andx.AndX.Unmarshal` reads them from four bytes -/
+def andxVal (a b c d : UInt8) : Val := .ns [a.toNat, b.toNat, 256 * c.toNat + d.toNat]
+
+/-- the AndX block `Marshal` creates when none is set: `andx.NewAndX()` with `AndXCommand = SMB_COM_NO_ANDX_COMMAND` -/
+def defaultAndX : Val := .ns [255, 0, 0]
+
+/-- the fixed prologue of every `Marshal`: `if c.IsAndX() { if c.GetAndX() == nil { c.SetAndX(andx.NewAndX());
+    c.GetAndX().AndXCommand = codes.SMB_COM_NO_ANDX_COMMAND } … }` — the command holds an AndX block afterwards -/
+def prologueEnv (isAndX : Bool) (env : Env) : Env :=
+  if isAndX && (env.get andxField).isNone then env.set andxField defaultAndX else env
+
 /-- the two raw streams (and the bytes ahead of the parameter block) a command's Marshal builds from its fields -/
 def runM (C : Codecs) (c : Cmd) (env : Env) : Outcome MState :=
-  runMStmts C c.isAndX { env := env } c.marshal
+  runMStmts C c.isAndX { env := prologueEnv c.isAndX env } c.marshal
 
 /-! ## Unmarshal -/
 
@@ -326,14 +342,6 @@ def cstrUnicodeAux : (fuel : Nat) → Bytes → Nat → Bytes → Bytes
 def cstrUnicode (d : Bytes) : Bytes × Nat :=
   let s := cstrUnicodeAux (d.length + 1) d 0 []
   (s, min (s.length + 2) d.length)
-
-/-- the name under which the AndX block of an AndX command (`Command.AndX`, a pointer: absent = nil) is kept among
-    the field values; no declared field can have it (the extractor refuses a structure declaring `AndX`, which would
-    shadow the promoted field) -/
-def andxField : String := "AndX"
-
-/-- `AndXCommand, AndXReserved, AndXOffset` as `andx.AndX.Unmarshal` reads them from four bytes -/
-def andxVal (a b c d : UInt8) : Val := .ns [a.toNat, b.toNat, 256 * c.toNat + d.toNat]
 
 mutual
 def runUStmt (C : Codecs) (s : UState) : UStmt → Step UState
